@@ -34,12 +34,22 @@ def run(chk):
     chk.section("update_inout_ports", lambda: ports(chk))
     chk.section("function-type", lambda: fntype(chk))
     chk.section("dfcontainer", lambda: dfcontainer(chk))
+    chk.section("comptime-callers", lambda: comptime_callers(chk))
     for i in range(NCH):
         chk.section(f"bounded-{i}", lambda i=i: bounded(chk, i))
     chk.expected_min_obligations = 60
     chk.assumptions += ["the callee's definition returns its borrowed parameters after the regular results in parameter order (compile_cfg / function compilation; exercised by the bounded layer, not proved here)",
                         "argument lists of length <= 3 are enumerated"]
-    chk.not_covered += ["qubit-typed borrowed values on the emulator (bounded layer uses int arrays, structs, nested arrays, tuples)", "comptime functions"]
+    chk.not_covered += ["qubit-typed borrowed values on the emulator (bounded layer uses int arrays, structs, nested arrays, tuples)", "comptime callers beyond update_packed_value (trace_call's builder calls)"]
+
+
+def comptime_callers(chk):
+    """update_packed_value (tracing/unpacking.py) is the comptime counterpart of _update_inout_ports: after
+    a call that borrowed a comptime value, every component of the caller's Python-side object carries the
+    wire the callee handed back — copyable components too (a comptime callee may have assigned a
+    classical field of a borrowed struct).  Obligations shared with C21 / C22."""
+    from .C22 import upv_obligations
+    upv_obligations(chk, tag="comptime-caller:", consts=True)
 
 
 KINDS = ("plain", "place", "subscript", "temp")
